@@ -1,9 +1,46 @@
 """C11 Filters use the documented criteria, in order, one destination per read"""
+from fractions import Fraction
+
 from harness import family_check as F
+from harness.cli_run import codes
+
+
+def nfraction_events(ctx, n):
+    """--max-n given as a fraction that the read's N fraction equals exactly (or misses by one N): decided by
+    the real TooManyN predicate, validated by Trace_Fn (clause NCountBothCases / fraction rule)."""
+    from cutadapt.predicates import TooManyN
+    from cutadapt.info import ModificationInfo
+    from dnaio import SequenceRecord
+    rng = ctx.rng
+    ev = []
+    while len(ev) < n:
+        L = rng.choice((10, 20, 25, 40, 50, 90, 100, rng.randint(1, 120)))
+        cnt = rng.randint(0, L)
+        seq = ["N" if i < cnt else rng.choice("ACGT") for i in range(L)]
+        rng.shuffle(seq)
+        seq = "".join(c if rng.random() < 0.8 else c.lower() for c in seq)
+        a, b = rng.choice(((cnt, L), (max(cnt - 1, 0), L), (cnt + 1, L)))
+        if not (0 <= Fraction(a, b) < 1):
+            continue
+        text = str(Fraction(a, b).numerator / Fraction(a, b).denominator)
+        if Fraction(text) != Fraction(a, b):
+            continue                      # the decimal given on the command line must be the exact fraction
+        r = SequenceRecord("r", seq)
+        out = TooManyN(float(text)).test(r, ModificationInfo(r))
+        ev.append(dict(id=len(ev), f="toomanyn", seq=codes(seq), a=Fraction(a, b).numerator, b=Fraction(a, b).denominator,
+                       out=[1 if out else 0], text=text))
+    return ev
 
 
 def run(ctx):
     F.run_family_check(ctx, "C11", 120, 2000, mc=[("PipelineSM", "MC_PipelineSM_quick.cfg", "MC_PipelineSM.cfg")])
+    ev = nfraction_events(ctx, 600 if ctx.quick else 20000)
+    res = ctx.validate("Trace_Fn", "Trace_Fn.cfg", ev, tag="nfrac")
+    for i, clauses in res.items():
+        e = ev[i]
+        ctx.violation("CriteriaExact:MaxNFraction", "C11:CriteriaExact:max-n-fraction",
+                      dict(max_n=e["text"], sequence="".join(map(chr, e["seq"])), filtered=bool(e["out"][0])))
+    ctx.extra["max_n_fraction_boundary_events"] = len(ev)
 
 
 replay = F.replay
